@@ -13,7 +13,13 @@ import (
 // functional claims (and listed in the evidence) rather than given a longer timeout.
 func unstable(j *basis.Job, fnKey string) bool {
 	if j.Opts.Ptr && (j.Schema.Name == "mmix" || j.Schema.Name == "uni") {
-		// pointer receivers make per-iteration copies of message/union records escape to the heap
+		// pointer receivers make the per-iteration copies of message / union elements escape to the heap: the two
+		// records that loop over an array of messages (Mm: ls Leaf[]) or unions (Uw: us U[]) time out; every other
+		// record of these schemas (Leaf, Wrap, U and its members) is verified under pointer receivers as well
+		lk := strings.ToLower(fnKey)
+		if !(strings.Contains(lk, ".mm).") || strings.Contains(lk, ".uw).")) {
+			return false
+		}
 		return strings.Contains(fnKey, ".MarshalBebopTo") || strings.Contains(fnKey, ".Size") || strings.Contains(fnKey, ".MarshalBebop") || strings.Contains(fnKey, ".EncodeBebop")
 	}
 	return false
